@@ -3,10 +3,11 @@
    All functions named here (show, hide, send_update, pump, set_cursor, set_encodings, ptr_event, fur,
    fill, shape_msg, make_mask_for_xcursor, make_rich_from_x) are the mirror functions that are
    extracted and executed by the correspondence run.  The boolean parameters select between the code
-   as it is (false) and a proposed repair (true):
-     fixed    - clip of rfbShowCursor/rfbHideCursor    (F15,  notes/fix_C15_1.diff)
-     v_empty  - cursor without pixels in rfbSendCursorShape (F15b, notes/fix_C15_2.diff)
-     v_switch - SetEncodings that withdraws cursor-shape support (F15c, notes/fix_C15_3.diff) *)
+   in the tree (true) and the code before a repair (false, kept as the record of the defect):
+     fixed    - clip of rfbShowCursor/rfbHideCursor    (F15,  /repo commit 1a3b6d2)
+     v_empty  - cursor without pixels in rfbSendCursorShape (F15b, /repo commit 0775c26)
+     v_switch - SetEncodings that withdraws cursor-shape support (F15c, /repo commit 2b32386)
+   The correspondence run executes the model with all three = true. *)
 From LV Require Import Cursor.CursorDefs Cursor.CursorProofs Cursor.CursorSession Cursor.CursorSessionProofs
   Cursor.CursorMaskProofs Cursor.CursorShapeProofs Gen.Consts_C15.
 Local Open Scope Z_scope.
@@ -21,29 +22,27 @@ Theorem C15_hide_show_id : forall fixed fmt f c px py ub,
                     hide fixed f1 c' px py buf = Some f.
 Proof. exact hide_show_id. Qed.
 
-(* the picture that is encoded = cursor laid over the framebuffer.
-   Full statement (holds for the repaired clip only): *)
-Theorem C15_show_is_overlay_fixed : forall fmt f c px py ub f1 buf c' r,
+(* the picture that is encoded = cursor laid over the framebuffer, every pixel (the tree, since 1a3b6d2) *)
+Theorem C15_show_is_overlay : forall fmt f c px py ub f1 buf c' r,
   wf_fb f -> show true fmt f c px py ub = Some (f1, buf, c') -> crich c' = Some r ->
   forall x y, fb_get f1 x y = overlay_get fmt c' r px py f x y.
 Proof. exact show_is_overlay_fixed. Qed.
 
-(* C15_show_is_overlay for the code as it is (fixed = false) would read
-     forall x y, fb_get f1 x y = overlay_get fmt c' r px py f x y
-   and is false (F15): *)
-Theorem C15_show_is_overlay_partial : forall fmt f c px py ub f1 buf c' r,
+(* record of F15 - the clip before 1a3b6d2 (fixed = false): overlay only left of the last column and
+   above the last row, which were never painted *)
+Theorem C15_show_is_overlay_old_clip_partial : forall fmt f c px py ub f1 buf c' r,
   show false fmt f c px py ub = Some (f1, buf, c') -> crich c' = Some r ->
   forall x y, x < fw f - 1 -> y < fh f - 1 ->
   fb_get f1 x y = overlay_get fmt c' r px py f x y.
 Proof. exact show_is_overlay_partial. Qed.
 
-Theorem C15_last_column_refuted :
+Theorem C15_last_column_old_clip_refuted :
   exists fmt f c px py ub f1 buf c' r x y,
     wf_fb f /\ wf_cursor c /\ show false fmt f c px py ub = Some (f1, buf, c') /\ crich c' = Some r /\
     fb_get f1 x y <> overlay_get fmt c' r px py f x y.
 Proof. exact last_column_refuted. Qed.
 
-Theorem C15_last_column_untouched : forall fmt f c px py ub f1 buf c',
+Theorem C15_last_column_old_clip_untouched : forall fmt f c px py ub f1 buf c',
   wf_fb f -> wf_cursor c ->
   show false fmt f c px py ub = Some (f1, buf, c') ->
   forall x y, x = fw f - 1 \/ y = fh f - 1 -> fb_get f1 x y = fb_get f x y.
@@ -112,15 +111,20 @@ Theorem C15_inv_cursor_replacement : forall fixed fmt s cls nc,
   Forall (Inv fixed fmt (fst (set_cursor s cls nc))) (snd (set_cursor s cls nc)).
 Proof. exact inv_set_cursor. Qed.
 
-(* SetEncodings: full statement for the repair (v_switch = true); for the code as it is only when the
-   client does not go from cursor-shape updates back to a painted cursor (F15c) *)
-Theorem C15_inv_set_encodings_partial : forall fixed fmt v_switch s encs cl,
+(* SetEncodings (the tree, since 2b32386) *)
+Theorem C15_inv_set_encodings : forall fixed fmt s encs cl,
+  wf_fb (sfb s) -> Inv fixed fmt s cl -> Inv fixed fmt s (set_encodings true s encs cl).
+Proof. exact inv_set_encodings_tree. Qed.
+
+(* record of F15c - before 2b32386 (v_switch = false) only when the client does not go from
+   cursor-shape updates back to a painted cursor *)
+Theorem C15_inv_set_encodings_old_partial : forall fixed fmt v_switch s encs cl,
   wf_fb (sfb s) -> Inv fixed fmt s cl ->
   v_switch = true \/ shape cl = false \/ shape (set_encodings v_switch s encs cl) = true ->
   Inv fixed fmt s (set_encodings v_switch s encs cl).
 Proof. exact inv_set_encodings. Qed.
 
-Theorem C15_set_encodings_switch_refuted :
+Theorem C15_set_encodings_old_switch_refuted :
   exists fixed fmt s cl encs,
     wf_fb (sfb s) /\ wf_ocursor (scur s) /\ Inv fixed fmt s cl /\
     ~ Inv fixed fmt s (set_encodings false s encs cl).
@@ -189,15 +193,16 @@ Theorem C15_shape_message_no_cursor : forall v_empty rich fmt,
   shape_msg v_empty rich fmt None = Some (None, rect_header 0 0 0 0 (if rich then enc_richcursor else enc_xcursor)).
 Proof. exact shape_message_none. Qed.
 
-(* a cursor of width or height 0: 12 bytes, no payload - for the repair; refuted for the code as it is (F15b) *)
-Theorem C15_shape_message_empty_fixed : forall rich fmt c oc' bytes,
+(* a cursor of width or height 0: 12 bytes, no payload (the tree, since 0775c26) *)
+Theorem C15_shape_message_empty : forall rich fmt c oc' bytes,
   cw c = 0 \/ ch c = 0 ->
   shape_msg true rich fmt (Some c) = Some (oc', bytes) ->
   bytes = rect_header 0 0 0 0 (if rich then enc_richcursor else enc_xcursor) /\
   Z.of_nat (length bytes) = 12 + rfb_cursor_payload_len rich (bpp fmt) (cw c) (ch c).
 Proof. exact shape_message_empty_fixed. Qed.
 
-Theorem C15_shape_message_empty_refuted :
+(* record of F15b - before 0775c26 (v_empty = false): six stray bytes *)
+Theorem C15_shape_message_empty_old_refuted :
   exists fmt c oc' bytes,
     cw c = 0 /\ shape_msg false false fmt (Some c) = Some (oc', bytes) /\
     Z.of_nat (length bytes) <> 12 + rfb_cursor_payload_len false (bpp fmt) (cw c) (ch c).
